@@ -84,10 +84,15 @@ def run_cli(ctx, cwd, src, dest, sf, df, src_enc=None, dest_enc=None, src_opts=(
         cmd += ["--dest-opts"] + list(dest_opts)
     env = {"PYTHONPATH": repo, "PATH": os.environ.get("PATH", "/usr/bin:/bin"), "TMPDIR": cwd,
            "PYTHONDONTWRITEBYTECODE": "1", "PYTHONIOENCODING": "utf-8", "HOME": cwd}
-    try:
-        p = subprocess.run(cmd, cwd=cwd, env=env, stdout=subprocess.PIPE, stderr=subprocess.PIPE, timeout=60)
-    except subprocess.TimeoutExpired:
-        return -9, "timeout after 60 s"
+    for attempt in (1, 2):
+        try:
+            p = subprocess.run(cmd, cwd=cwd, env=env, stdout=subprocess.PIPE, stderr=subprocess.PIPE, timeout=60)
+        except subprocess.TimeoutExpired:
+            return -9, "timeout after 60 s"
+        # a failure of the tool always shows a traceback or an argparse "error:"; anything else (killed
+        # by a signal, interpreter could not start) is the machine, not the tool: try once more
+        if p.returncode == 0 or b"Traceback" in p.stderr or b"error:" in p.stderr:
+            break
     err = p.stderr.decode("utf-8", "replace").strip().split("\n")
     return p.returncode, " | ".join(x.strip() for x in err[-2:])[-300:]
 
@@ -167,6 +172,8 @@ def expectation(w):
     src, steps = w["src"], w["steps"]
     keys = [carry_key(src["fmt"], kw=src.get("kw", {}))] + [carry_key(s["fmt"], s.get("opts", ())) for s in steps]
     lfld = [f for f in ("w", "l", "e", "m", "lem") if all(f in lf.CARRY[k][0] for k in keys)]
+    if src.get("kw", {}).get("omit_lemma") and "lem" in lfld:
+        lfld.remove("lem")          # a TIGER-XML source without lemma attributes carries no lemma
     nfld = [f for f in ("l", "e") if all(f in lf.CARRY[k][1] for k in keys)]
     cur = [lf.map_spec(s) for s in src_specs(w)]
     sids = [s["sid"] for s in cur] if lf.CARRY[keys[0]][2] else list(range(1, len(cur) + 1))
@@ -379,10 +386,20 @@ def _chain_formats(w):
 
 
 def classify(clause, w, expected, observed):
+    try:
+        return _classify(clause, w, expected, observed)
+    except Exception:        # a classifier must never take the run down
+        return None
+
+
+def _classify(clause, w, expected, observed):
     ob = observed if isinstance(observed, dict) else {}
     kind = ob.get("kind")
     fmts = _chain_formats(w)
-    steps = w.get("steps", [])
+    steps = list(w.get("steps", []))
+    if clause == "self_roundtrip":        # A -> B -> B
+        fmts = fmts + fmts[-1:]
+        steps = steps + steps[-1:]
     src = w["src"]
     words = [x for s in (w.get("specs") or [t for p in w.get("parts", []) for t in p]) for x in lf.spec_words(s)]
     stderr = ob.get("stderr", "")
@@ -396,14 +413,6 @@ def classify(clause, w, expected, observed):
         reading = [(f, "ours" if k == 0 else "tool") for k, f in enumerate(fmts[:-1])]
     if w.get("gz") and src["fmt"] == "tigerxml" and kind == "exit" and "ParseError" in stderr:
         return "tigerxml-reader-does-not-gunzip"
-    # F9: a discobrackets file with the documented 1-based indices is read (ours with base 1, or the tool's own)
-    for f, who in reading:
-        if f == "discobrackets" and (who == "tool" or src.get("kw", {}).get("base") == 1):
-            return "discobrackets-reader-takes-indices-as-0-based"
-    # F21: tool reads discobrackets whose sentence has a token with parentheses
-    for f, who in reading:
-        if f == "discobrackets" and any(lf.has_paren(x) and len(x) > 1 for x in words):
-            return "discobrackets-sentence-token-with-parenthesis-split-by-lexer"
     # F8: trees from a reader that leaves lemma None written by a writer that needs it
     if kind == "exit":
         k = ob.get("step", 1) - 1
@@ -421,6 +430,19 @@ def classify(clause, w, expected, observed):
     if kind == "exit" and ob.get("from") == "tigerxml" and ob.get("step", 1) > 1 \
             and steps[ob["step"] - 2].get("enc", "utf-8") == "latin-1" and "ParseError" in stderr:
         return "tigerxml-written-without-encoding-declaration"
+    # F9 with its own symptom: the token looked up at index n+1 does not exist and comes back as int 0
+    for f, who in reading:
+        if f == "discobrackets" and (who == "tool" or src.get("kw", {}).get("base") == 1) \
+                and "TypeError" in stderr and ("'int'" in stderr or "int found" in stderr):
+            return "discobrackets-reader-takes-indices-as-0-based"
+    # F21: tool reads discobrackets whose sentence has a token with parentheses
+    for f, who in reading:
+        if f == "discobrackets" and any(lf.has_paren(x) and len(x) > 1 for x in words):
+            return "discobrackets-sentence-token-with-parenthesis-split-by-lexer"
+    # F9: a discobrackets file with the documented 1-based indices is read (ours with base 1, or the tool's own)
+    for f, who in reading:
+        if f == "discobrackets" and (who == "tool" or src.get("kw", {}).get("base") == 1):
+            return "discobrackets-reader-takes-indices-as-0-based"
     return None
 
 
@@ -513,6 +535,7 @@ def _items(ctx):
         kind = kinds[i % 3]
         pool = lf.WORDS_ALL if i % 3 == 0 else lf.WORDS_NOPAREN
         corpora.append((kind, _corpus(rng, kind, b["max_tokens"], pool, gap1=(i % 6 == 1))))
+    tg.spec_leaves(corpora[0][1][0])[0]["w"] = "(x)"      # a token with parentheses is always in
     cont = [c for k, c in corpora if k != "disc"]
     n = 0
     # --- all pairs -------------------------------------------------------------------
@@ -533,6 +556,11 @@ def _items(ctx):
             if sf == "discobrackets" and 1 in DISCO_BASES:
                 w = {"specs": corpora[0][1], "src": _src(sf, n, rng, base=1), "steps": [{"fmt": df, "opts": []}]}
                 yield "convert", w, _key("convert-base1", w, corpora[0][1])
+    # --- a TIGER-XML source without lemma attributes (absent optional field) ----------------
+    for df, opts in (("tigerxml", []), ("export", ["export_four"]), ("export", [])):
+        src = {"fmt": "tigerxml", "kw": {"permute": True, "omit_lemma": True}, "seed": 5}
+        w = {"specs": cont[1 % len(cont)], "src": src, "steps": [{"fmt": df, "opts": opts}]}
+        yield "convert", w, _key("convert-nolemma", w, w["specs"]) + (tuple(opts),)
     # --- the tool reads what it wrote ----------------------------------------------------
     for j, bf in enumerate(SRC_FORMATS):
         for sf in (["export", "tigerxml"] if ctx.quick else SRC_FORMATS):
@@ -573,7 +601,7 @@ def _items(ctx):
         yield "encodings", w, _key("enc", w, lat)
     # --- gzip source, directory source --------------------------------------------------
     for j, sf in enumerate(SRC_FORMATS):
-        specs = cont[j % len(cont)]
+        specs = cont[(j + 1) % len(cont)]
         w = {"specs": specs, "src": _src(sf, j, rng), "gz": True, "steps": [{"fmt": "export", "opts": []}]}
         yield "gzip_source", w, _key("gz", w, specs)
     for j, (sf, df) in enumerate([("export", "discobrackets"), ("brackets", "export"), ("tigerxml", "terminals")]):
